@@ -187,7 +187,7 @@ def run(pid, tier, out):
         # the same question LIMITED, with and without [placement]randomize_allocation_candidates: what comes back must still
         # be claimable as returned and carry the summaries of the providers it names
         m = len(r.json['allocation_requests'])
-        if m >= 2 and q['v'] >= 16 and stats['limited'] < (60 if tier == 'quick' else 100000):
+        if m >= 2 and q['v'] >= 16 and stats['limited'] < (60 if tier == 'quick' else 3000):
             import random as _random
             path, ver = cand.query_http(q)
             for randomize in (True, False):
